@@ -71,6 +71,18 @@ def check_range(start, end, pre, post):
         evs = [(e.ts, e.event_type) for e in eng]
     except Exception as e:  # noqa
         return [{'clause': 'C12.unexpected_error', 'detail': {'error': repr(e)}, 'case': case}], 0
+    # the engine object can be iterated more than once, and an abandoned iteration must not matter
+    try:
+        eng2 = DailyBusinessDaySimulationEngine(start, end, pre_market=pre, post_market=post)
+        it = iter(eng2)                         # a FRESH engine is peeked at first (iteration abandoned) ...
+        peek = [next(it, None) for _ in range(3)]
+        again = [(e.ts, e.event_type) for e in eng2]       # ... then iterated in full
+        third = [(e.ts, e.event_type) for e in eng]        # and the first engine a second time
+    except Exception as e:  # noqa
+        return [{'clause': 'C12.unexpected_error', 'detail': {'error': repr(e), 'on': 're-iteration'}, 'case': case}], 0
+    if again != evs or third != evs:
+        fails.append({'clause': 'C12.reiteration', 'case': case,
+                      'detail': {'first_pass': len(evs), 'after_a_peek': len(again), 'third_pass': len(third)}})
     want = rm.clock_events(start.date(), end.date(), pre, post)
     got = []
     for t, typ in evs:
